@@ -147,21 +147,29 @@ class ParallelLoopTrans(LoopTrans, metaclass=abc.ABCMeta):
         if sequential or ignore_dep_analysis:
             return
 
-        dep_tools = DependencyTools()
+        # If the loop nest is collapsed then the iterations of each of the
+        # collapsed loops are shared out and must therefore be independent.
+        loops_to_check = [node]
+        if collapse:
+            for _ in range(collapse - 1):
+                loops_to_check.append(loops_to_check[-1].loop_body[0])
 
-        if not node.independent_iterations(dep_tools=dep_tools,
-                                           test_all_variables=True):
-            # The DependencyTools also returns False for things that are
-            # not an issue, so we ignore specific messages.
-            for message in dep_tools.get_all_messages():
-                if message.code == DTCode.WARN_SCALAR_WRITTEN_ONCE:
-                    continue
-                all_msg_str = [str(message) for message in
-                               dep_tools.get_all_messages()]
-                messages = "\n".join(all_msg_str)
-                raise TransformationError(
-                    f"Dependency analysis failed with the following "
-                    f"messages:\n{messages}")
+        for loop in loops_to_check:
+            dep_tools = DependencyTools()
+
+            if not loop.independent_iterations(dep_tools=dep_tools,
+                                               test_all_variables=True):
+                # The DependencyTools also returns False for things that are
+                # not an issue, so we ignore specific messages.
+                for message in dep_tools.get_all_messages():
+                    if message.code == DTCode.WARN_SCALAR_WRITTEN_ONCE:
+                        continue
+                    all_msg_str = [str(message) for message in
+                                   dep_tools.get_all_messages()]
+                    messages = "\n".join(all_msg_str)
+                    raise TransformationError(
+                        f"Dependency analysis failed with the following "
+                        f"messages:\n{messages}")
 
     def apply(self, node, options=None):
         '''
